@@ -13,11 +13,89 @@ def run(ctx):
                 "(attribute reads incl. lazily defaulted nested messages, bytes, len, ==, bool, repr, to_dict, to_json, to_pydict) and with "
                 "copy / deepcopy / pickle (the history continues on the copy) and independence probes (a deep copy and an unpickled copy are "
                 "mutated everywhere, the original is observed again) on all Wide-family types; after every call the full public observation "
-                "(values, presence, selection, encoding, unknown fields) must equal the abstract state; non-trivial = >= 2 ops")
+                "(values, presence, selection, encoding, unknown fields) must equal the abstract state; plus every observer on the bundled Struct / "
+                "Value / ListValue classes holding values decoded from the reference's bytes (encoding before = after, equal to an untouched twin); "
+                "non-trivial = >= 2 ops")
+    # the bundled well-known types with hand-written conversions, holding real Value messages
+    wcases = [(k, o, w) for k in range(len(STRUCT_VALUES)) for o in OBSERVERS for w in ("struct", "value", "list")]
+    wev = ctx.pmap(wkt_event, wcases)
+    for c in wcases:
+        ctx.count_case(("wkt",) + c, True)
+    ctx.validate("Trace_Pure", wev, shard=500)
     hist.run_histories(ctx, ["TMix", "TOne", "TOpt", "TOneP", "TScal", "TRep", "TMapV", "TMapK", "TWkt", "TImpl", "Node"], 1500 if quick else 30000, 12, "observers")
 
 
+STRUCT_VALUES = [{}, {"a": 1.5}, {"s": "x", "b": True, "n": None}, {"l": [1.0, "two", False, None, [3.0], {"k": "v"}]},
+                 {"nested": {"deep": {"deeper": [{"x": 1.0}, {}]}}, "e": ""}, {"": 0.0, "k": -1e300}]
+OBSERVERS = ["to_dict", "to_json", "to_pydict", "bytes", "len", "repr", "eq", "bool", "copy", "deepcopy", "pickle", "to_dict_twice"]
+
+
+def wkt_event(args):
+    """bundled well-known types with hand-written conversions (Struct, Value, ListValue): the value is built by the reference,
+    decoded by betterproto's class (so that it holds real Value messages), and one observer is called on it"""
+    import copy
+    import pickle
+    k, observer, wrap = args
+    ev = {"observer": observer, "setup": "ok", "res": "ok", "before": [], "after": [], "after_res": "ok", "eq_twin": True, "copy_eq": True, "copy_bytes": [],
+          "case": {"value": STRUCT_VALUES[k], "observer": observer, "wrapped": wrap}}
+    try:
+        from google.protobuf import struct_pb2
+        import betterproto.lib.google.protobuf as bpw
+        r = struct_pb2.Struct()
+        r.update(STRUCT_VALUES[k])
+        if wrap == "value":
+            rv = struct_pb2.Value(struct_value=r)
+            b0, cls = rv.SerializeToString(), bpw.Value
+        elif wrap == "list":
+            rl = struct_pb2.ListValue()
+            rl.values.add().struct_value.CopyFrom(r)
+            rl.values.add().number_value = 2.5
+            b0, cls = rl.SerializeToString(), bpw.ListValue
+        else:
+            b0, cls = r.SerializeToString(), bpw.Struct
+        m, twin = cls().parse(b0), cls().parse(b0)
+        ev["before"] = list(bytes(m))
+    except Exception as ex:
+        ev["setup"] = type(ex).__name__ + ":" + str(ex)[:60]
+        return ev
+    try:
+        if observer == "to_dict":
+            m.to_dict()
+        elif observer == "to_dict_twice":
+            m.to_dict()
+            m.to_dict()
+        elif observer == "to_json":
+            m.to_json()
+        elif observer == "to_pydict":
+            m.to_pydict()
+        elif observer == "bytes":
+            bytes(m)
+        elif observer == "len":
+            len(m)
+        elif observer == "repr":
+            repr(m)
+        elif observer == "eq":
+            m == twin
+        elif observer == "bool":
+            bool(m)
+        else:
+            c = copy.copy(m) if observer == "copy" else copy.deepcopy(m) if observer == "deepcopy" else pickle.loads(pickle.dumps(m))
+            ev["copy_eq"] = bool(c == m)
+            ev["copy_bytes"] = list(bytes(c))
+    except Exception as ex:
+        ev["res"] = type(ex).__name__ + ":" + str(ex)[:60]
+    try:
+        ev["after"] = list(bytes(m))
+        ev["eq_twin"] = bool(m == twin)
+    except Exception as ex:
+        ev["after_res"] = type(ex).__name__
+    return ev
+
+
 def redrive(ev):
+    if "observer" in ev.get("case", {}):
+        c = ev["case"]
+        return wkt_event((STRUCT_VALUES.index(c["value"]), c["observer"], c["wrapped"]))
     if "ops" in ev.get("case", {}):
         return hist.history_event((ev["case"]["ty"], ev["case"]["ops"], False))
     return None
